@@ -654,7 +654,13 @@ class Interp:
             if isinstance(v, list) and name == "insert":
                 return lambda i, x, _v=v: _v.insert(int(i), x)
             if isinstance(v, str) and name == "join":
-                return lambda it, _v=v: _v.join(str(x) for x in self.iterate(it))
+                def join(it, _v=v):
+                    parts = self.iterate(it)
+                    for i, x in enumerate(parts):
+                        if not isinstance(x, str):
+                            raise PyRaise("TypeError", node, f"sequence item {i}: expected str instance, {self.tname(x)} found")
+                    return _v.join(parts)
+                return join
             if isinstance(v, dict) and name == "get":
                 return lambda k, d=None, _v=v: _v.get(k, d)
             if isinstance(v, collections.Counter) and name in ("most_common", "elements", "total", "subtract", "update"):
